@@ -35,7 +35,7 @@ ASSUMPTIONS = [
     "multisets, are compared)",
     "a sink allocated an empty core range expects no leaf",
 ]
-FLOORS = {"tree_validated": 500, "hop_checked": 5000,
+FLOORS = {"own_core_resource": 500, "tree_validated": 500, "hop_checked": 5000,
           "repair_invoked": 100, "must_succeed": 200,
           "avoid_dead_links:reparent": 5, "leaf_checked": 2000}
 SHARDS = {"quick": 16, "thorough": 64}
